@@ -1,14 +1,20 @@
 """Which engine parts decide which property."""
-from .engines import deque
+from .engines import deque, codec
 
 # part name -> (run(res, work, tier, seed), replay(rep, work))
 PARTS = {
     "deque.c15": (deque.run_c15, deque.replay),
     "deque.c16": (deque.run_c16, deque.replay),
+    "codec.small": (codec.run_small, codec.replay),
+    "codec.prod": (codec.run_prod, codec.replay),
 }
 
 # property -> parts whose violations (filtered by property id) decide it
 PROPERTY_PARTS = {
     "C15": ["deque.c15", "deque.c16"],
     "C16": ["deque.c16"],
+    "C01": ["codec.small", "codec.prod"],
+    "C02": ["codec.small", "codec.prod"],
+    "C07": ["codec.small", "codec.prod"],
+    "C09": ["codec.small", "codec.prod"],
 }
